@@ -364,6 +364,8 @@ fn clean_item(it: &mut syn::Item, derive_keep: &[String], subst: &BTreeMap<Strin
 // ---- function transformation
 
 struct Rules {
+    mut_self: bool,
+    mid_continue: bool,
     closure_wildcards: bool,
     let_chains: bool,
     then_with: bool,
@@ -508,7 +510,125 @@ impl<'a> VisitMut for RuleVisitor<'a> {
         if self.rules.tail_continue {
             tail_continue_block(&mut l.body, self.applied);
         }
+        if self.rules.mid_continue {
+            skip_flag_block(&mut l.body, self.applied, true);
+        }
     }
+}
+
+/// does the statement contain an unlabeled `continue` that belongs to the enclosing loop?
+struct SelfRename;
+fn rename_self_tokens(ts: proc_macro2::TokenStream) -> proc_macro2::TokenStream {
+    ts.into_iter()
+        .map(|t| match t {
+            proc_macro2::TokenTree::Ident(i) if i == "self" => {
+                proc_macro2::TokenTree::Ident(proc_macro2::Ident::new("__vx_self", i.span()))
+            }
+            proc_macro2::TokenTree::Group(g) => {
+                let mut ng = proc_macro2::Group::new(g.delimiter(), rename_self_tokens(g.stream()));
+                ng.set_span(g.span());
+                proc_macro2::TokenTree::Group(ng)
+            }
+            other => other,
+        })
+        .collect()
+}
+impl VisitMut for SelfRename {
+    fn visit_ident_mut(&mut self, i: &mut proc_macro2::Ident) {
+        if i == "self" {
+            *i = proc_macro2::Ident::new("__vx_self", i.span());
+        }
+    }
+    fn visit_macro_mut(&mut self, m: &mut syn::Macro) {
+        m.tokens = rename_self_tokens(std::mem::take(&mut m.tokens));
+    }
+    fn visit_item_mut(&mut self, _i: &mut syn::Item) {}
+}
+
+struct ContinueFinder(bool);
+impl<'ast> Visit<'ast> for ContinueFinder {
+    fn visit_expr_continue(&mut self, c: &'ast syn::ExprContinue) {
+        if c.label.is_none() {
+            self.0 = true;
+        }
+    }
+    fn visit_expr_for_loop(&mut self, _: &'ast syn::ExprForLoop) {}
+    fn visit_expr_while(&mut self, _: &'ast syn::ExprWhile) {}
+    fn visit_expr_loop(&mut self, _: &'ast syn::ExprLoop) {}
+    fn visit_expr_closure(&mut self, _: &'ast syn::ExprClosure) {}
+}
+
+/// replace a `continue` that is the last statement of a (nested if/match/block) tail position by `__vx_skip = true`
+fn flag_tail_continue(e: &mut Expr) {
+    match e {
+        Expr::Continue(c) if c.label.is_none() => *e = parse_quote!(__vx_skip = true),
+        Expr::If(i) => {
+            if let Some(Stmt::Expr(last, _)) = i.then_branch.stmts.last_mut() {
+                flag_tail_continue(last);
+            }
+            if let Some((_, els)) = &mut i.else_branch {
+                flag_tail_continue(els);
+            }
+        }
+        Expr::Match(m) => {
+            for arm in m.arms.iter_mut() {
+                flag_tail_continue(&mut arm.body);
+            }
+        }
+        Expr::Block(b) if b.label.is_none() => {
+            if let Some(Stmt::Expr(last, _)) = b.block.stmts.last_mut() {
+                flag_tail_continue(last);
+            }
+        }
+        _ => {}
+    }
+}
+
+/// E12: `for … { A; if c { B; continue; } R }`  ==>  `for … { let mut __vx_skip = false; A; if c { B; __vx_skip = true; } if !__vx_skip { R } }`
+/// (Verus rejects `continue` inside `for`; the flag makes the remainder of the body conditional, which is what `continue` means.)
+fn skip_flag_block(b: &mut Block, applied: &mut Applied, top: bool) {
+    let n = b.stmts.len();
+    let mut hit: Option<usize> = None;
+    for (i, st) in b.stmts.iter().enumerate() {
+        let mut f = ContinueFinder(false);
+        f.visit_stmt(st);
+        if f.0 {
+            hit = Some(i);
+            break;
+        }
+    }
+    let Some(i) = hit else { return };
+    if i + 1 == n {
+        return; // a tail continue: rule E9's business
+    }
+    let mut si = b.stmts[i].clone();
+    if let Stmt::Expr(e, _) = &mut si {
+        flag_tail_continue(e);
+    }
+    let mut f = ContinueFinder(false);
+    f.visit_stmt(&si);
+    if f.0 {
+        applied.warnings.push("E12: a `continue` is not the last statement of its branch; left as is".into());
+        return;
+    }
+    let rest: Vec<Stmt> = b.stmts[i + 1..].to_vec();
+    let mut rest_block: Block = parse_quote!({ #(#rest)* });
+    skip_flag_block(&mut rest_block, applied, false);
+    let mut out: Vec<Stmt> = Vec::new();
+    if top {
+        out.push(parse_quote!(let mut __vx_skip = false;));
+    }
+    out.extend(b.stmts[..i].iter().cloned());
+    // make sure the rewritten statement ends with a semicolon (it is no longer last)
+    if let Stmt::Expr(e, _) = si {
+        out.push(Stmt::Expr(e, Some(Default::default())));
+    } else {
+        out.push(si);
+    }
+    let guarded: Expr = parse_quote!(if !__vx_skip #rest_block);
+    out.push(Stmt::Expr(guarded, None));
+    b.stmts = out;
+    applied.bump("E12-mid-continue-flag");
 }
 
 fn flatten_and(e: &Expr, out: &mut Vec<Expr>) {
@@ -805,6 +925,8 @@ fn transform_fn(
         .map(|a| a.iter().filter_map(|x| x.as_str().map(String::from)).collect())
         .unwrap_or_default();
     let rules = Rules {
+        mut_self: rule_list.iter().any(|r| r == "E13"),
+        mid_continue: rule_list.iter().any(|r| r == "E12"),
         closure_wildcards: rule_list.iter().any(|r| r == "E11"),
         let_chains: rule_list.iter().any(|r| r == "E10"),
         then_with: rule_list.iter().any(|r| r == "E4"),
@@ -819,6 +941,20 @@ fn transform_fn(
     }
     let mut applied = Applied::default();
     RuleVisitor { rules: &rules, applied: &mut applied }.visit_block_mut(block);
+    if rules.mut_self {
+        // E13: `fn f(mut self, ..) { B }` ==> `fn f(self, ..) { let mut __vx_self = self; B[self := __vx_self] }`
+        // (a by-value `mut self` is only a mutable local binding of the receiver; Verus has no `mut self` parameters)
+        let is_mut_self = matches!(sig.inputs.first(),
+            Some(syn::FnArg::Receiver(r)) if r.reference.is_none() && r.mutability.is_some());
+        if is_mut_self {
+            if let Some(syn::FnArg::Receiver(r)) = sig.inputs.first_mut() {
+                r.mutability = None;
+            }
+            SelfRename.visit_block_mut(block);
+            block.stmts.insert(0, parse_quote!(let mut __vx_self = self;));
+            applied.bump("E13-mut-self-rebound");
+        }
+    }
     if !subst.is_empty() {
         TypeSubst(subst).visit_signature_mut(sig);
         TypeSubst(subst).visit_block_mut(block);
